@@ -233,6 +233,32 @@ func GenGenesis(t *rapid.T, prof *Profile) GenesisSpec {
 		doc["regen.ecocredit.v1.BatchSequence"] = mustJSON([]map[string]interface{}{
 			{"project_key": "1", "next_sequence": "999"}})
 		g.Notes = append(g.Notes, "prefix-ids{C10,C100,C10-100,C10-1000,C100-001}")
+		if draw("g.legacybatches", 2) == 1 {
+			// batches carried over from an older store: zero amounts are omitted (empty strings), which genesis
+			// validation and every handler accept as zero
+			doc["regen.ecocredit.v1.Batch"] = mustJSON([]interface{}{3,
+				map[string]interface{}{"key": "1", "issuer": b64(accts[0]), "project_key": "1", "denom": "C10-100-20200101-20210101-001", "metadata": "legacy",
+					"start_date": "2020-01-01T00:00:00Z", "end_date": "2021-01-01T00:00:00Z", "issuance_date": "2021-06-01T00:00:00Z"},
+				map[string]interface{}{"key": "2", "issuer": b64(accts[2]), "project_key": "1", "denom": "C10-100-20210101-20220101-002",
+					"start_date": "2021-01-01T00:00:00Z", "end_date": "2022-01-01T00:00:00Z", "issuance_date": "2022-06-01T00:00:00Z", "open": true},
+				map[string]interface{}{"key": "3", "issuer": b64(accts[1]), "project_key": "3", "denom": "C100-001-20190101-20200101-001",
+					"start_date": "2019-01-01T00:00:00Z", "end_date": "2020-01-01T00:00:00Z", "issuance_date": "2020-06-01T00:00:00Z"},
+			})
+			doc["regen.ecocredit.v1.BatchSupply"] = mustJSON([]map[string]interface{}{
+				{"batch_key": "1", "tradable_amount": "60", "retired_amount": "50"},
+				{"batch_key": "2", "retired_amount": "7", "cancelled_amount": "0"},
+				{"batch_key": "3", "tradable_amount": "100.5"},
+			})
+			doc["regen.ecocredit.v1.BatchBalance"] = mustJSON([]map[string]interface{}{
+				{"batch_key": "1", "address": b64(accts[0]), "tradable_amount": "40"},
+				{"batch_key": "1", "address": b64(accts[1]), "tradable_amount": "20", "retired_amount": "50"},
+				{"batch_key": "2", "address": b64(accts[2]), "retired_amount": "7"},
+				{"batch_key": "3", "address": b64(accts[0]), "tradable_amount": "100.5"},
+			})
+			doc["regen.ecocredit.v1.BatchSequence"] = mustJSON([]map[string]interface{}{
+				{"project_key": "1", "next_sequence": "999"}, {"project_key": "3", "next_sequence": "2"}})
+			g.Notes = append(g.Notes, "legacy-batches{3 batches, omitted zero amounts}")
+		}
 	} else {
 		switch draw("g.classseq", 4) {
 		case 1:
